@@ -193,8 +193,9 @@ func utf8Escape(r *bufio.Reader) (string, error) {
 		bs = append(bs, b)
 	}
 
-	c, _ := utf8.DecodeRune(bs)
-	if c == utf8.RuneError {
+	// utf8.RuneError with the full width is a correctly encoded U+FFFD, an invalid sequence decodes with width 1
+	c, size := utf8.DecodeRune(bs)
+	if c == utf8.RuneError && size != len(bs) {
 		return "", fmt.Errorf("invalid utf-8 escape")
 	}
 
